@@ -289,13 +289,32 @@ func fieldBijection(x *Ctx, pk string) {
 			if ft == nil {
 				continue
 			}
-			if ft.String() != "*time.Time" {
+			isDID := strings.HasSuffix(ft.String(), "did.DID")
+			if ft.String() != "*time.Time" && !isDID {
 				continue // other optional fields are copied as they are (cause) or have a documented empty form (meta)
 			}
-			nP++
 			val := fs[m]
 			absent := val == nil || val.IsNil()
 			known, has := v.FactOn(eqs("recv."+f, "const(nil)"))
+			if isDID {
+				// an optional principal (written through a *string): absent exactly when it is did.Undef; a
+				// required principal is not conditional at all and is skipped
+				mf := fieldType(x, pk, "tokenPayloadModel", m)
+				if mf == nil {
+					continue
+				}
+				if _, isPtr := mf.Underlying().(*types.Pointer); !isPtr {
+					continue
+				}
+				known, has = v.FactOn(eqs("*global(did.Undef)", "recv."+f))
+				// nothing else may decide: any other condition on the field on this path is a second rule
+				for _, fc := range v.Facts {
+					if fc.Atom.Op == "eq" && strings.Contains(fc.Atom.String(), "recv."+f) && fc.Atom.String() != eqs("*global(did.Undef)", "recv."+f) {
+						badP += fmt.Sprintf("whether model field %s is written also depends on %s: the decoder only knows 'absent = undefined'\n", m, fc.Atom)
+					}
+				}
+			}
+			nP++
 			switch {
 			case absent && !(has && known):
 				badP += fmt.Sprintf("model field %s is left absent on a path that does not know token field %s to be nil:\n%s\n", m, f, v.Path.String())
